@@ -351,7 +351,7 @@ def linear_unit(p, item, tier, seed):
     for x in probs:
         if "inconclusive" in x:
             p.inconclusive.append(f"{desc}: {x}")
-    replay = (REPLAY_PRELUDE + "from checks import c07, c08_lin\n" + f"case={case!r}\nassign={{assign}}\n"
+    replay = (REPLAY_PRELUDE + "from checks import c07, c08_lin\n" + f"case={case!r}\nassign=@ASSIGN@\n"
               "got, want = c08_lin.concrete_sum(case, assign)\n"
               "from cirbo.core.circuit import Circuit\n"
               "c = Circuit.bare_circuit(sum(case['widths']), prefix='in'); labs=list(c.inputs); ops=[]; k=0\n"
@@ -361,7 +361,7 @@ def linear_unit(p, item, tier, seed):
               "print(got, want, n_new, b)\nsys.exit(1 if got != want or (b is not None and n_new > b) else 0)\n")
     n_inputs = sum(case["widths"])
     if structural:
-        p.violation(f"sum:{key_of(case)}:{structural[0].split(' ')[0]}:wide", f"{desc}: {structural}", replay.format(assign=[False] * n_inputs))
+        p.violation(f"sum:{key_of(case)}:{structural[0].split(' ')[0]}:wide", f"{desc}: {structural}", replay.replace('@ASSIGN@', repr([False] * n_inputs)))
         return
     if not hard:
         if p.canaries_run < 1 and stats["blocks"]:
@@ -376,7 +376,7 @@ def linear_unit(p, item, tier, seed):
     for assign in cands:
         got, want = c08_lin.concrete_sum(case, assign)
         if got != want:
-            p.violation(f"sum:{key_of(case)}:sum:wide", f"{desc}: {hard[:2]}; a concrete assignment gives {got} instead of {want}", replay.format(assign=assign))
+            p.violation(f"sum:{key_of(case)}:sum:wide", f"{desc}: {hard[:2]}; a concrete assignment gives {got} instead of {want}", replay.replace('@ASSIGN@', repr(list(assign))))
             return
     p.inconclusive.append(f"linear conservation of {desc} failed ({hard[0]}) but no concrete wrong sum was found")
     p.queries["unknown"] += 1
